@@ -196,6 +196,20 @@ theorem writeEvents_calm (cfg : Config) (hc : Calm plan) (evs : List (List Nat))
     | crash s1 => simp only [h, R.st] at h1 ⊢; exact h1
     | ok a1 s1 => simp only [h, R.st] at h1 ⊢; exact (ih a1 _ s1).trans h1
 
+theorem syncWritten_calm (hc : Calm plan) (n : List Nat) (b b' : Batch) (s : St) :
+    (syncWritten plan n b b' s).2.faulted = s.faulted := by
+  unfold syncWritten
+  split
+  · have hf := flushFile_calm hc s
+    cases hfl : flushFile plan s with
+    | err s3 => simp only [hfl, R.st] at hf ⊢; exact hf
+    | crash s3 => simp only [hfl, R.st] at hf ⊢; exact hf
+    | ok u s3 =>
+      simp only [hfl, R.st] at hf ⊢
+      have hy := syncAll_calm hc n s3
+      cases hs : syncAll plan n s3 <;> simp only [hs, R.st] at hy ⊢ <;> exact hy.trans hf
+  · rfl
+
 /-- Under a calm plan `on_batch` never sets the flag. -/
 theorem onBatch_calm (cfg : Config) (hc : Calm plan) (now : Parts) (id : Nat) (b : Batch) (s : St) :
     (onBatch cfg plan now id b s).2.faulted = s.faulted := by
@@ -211,7 +225,7 @@ theorem onBatch_calm (cfg : Config) (hc : Calm plan) (now : Parts) (id : Nat) (b
     obtain ⟨res, oa, s2⟩ := w
     simp only at hw
     cases res with
-    | retry b' => cases oa <;> exact hw.trans h0
+    | retry b' => cases oa <;> exact ((syncWritten_calm hc a.name b b' s2).trans hw).trans h0
     | noRetry => cases oa <;> exact hw.trans h0
     | crashed => cases oa <;> exact hw.trans h0
     | ok =>
